@@ -23,7 +23,13 @@ QUERIES = [
     [('agg', [(None, ('max', col('a'))), (None, ('min', col('a')))], [(None, col('g'))]), ('sort', [col('g')], 'desc')],
     [('sort', [col('a')], None), ('fields', 'only', ['id', 'a', 'k'])],
     [('agg', [(None, ('count', None))], [(None, col('s'))])],
+    # intermediate tables whose groups MOVE or DISAPPEAR as more input arrives: nothing of an earlier refresh may survive
+    [('agg', [('hits', ('count', None))], [(None, col('k'))]), ('agg', [('users', ('count', None)), ('total', ('sum', col('hits')))], [(None, col('hits'))])],
+    [('agg', [(None, ('count', None))], [(None, col('k'))]), ('agg', [('n', ('count', None))], [(None, col('_count'))])],
+    [('agg', [(None, ('count', None))], [(None, col('k'))]), ('where', ('cmp', 'lt', col('_count'), lit(2)))],
+    [('agg', [('lat', ('avg', col('a')))], [(None, col('k'))]), ('where', ('cmp', 'gt', col('lat'), lit(3))), ('limit', 5)],
 ]
+MOVING = QUERIES[-4:]
 
 
 def norm(line):
@@ -43,13 +49,19 @@ def expected_lines(query, data, h):
 
 
 def explore(ctx):
+    quick = ctx['tier'] == 'quick'
+    return run_live(ctx, QUERIES, 56 if quick else 700)
+
+
+def run_live(ctx, queries, n):
+    """drive the real binary on ptys with timed bursts; final and idle-checkpoint screens (through the extracted
+    terminal model) must equal the non-terminal output for the same input"""
     rng = ctx['rng']
     quick = ctx['tier'] == 'quick'
-    n = 48 if quick else 600
     failures = []
     jobs = []
     for i in range(n):
-        stages = [('json', None)] + QUERIES[i % len(QUERIES)]
+        stages = [('json', None)] + queries[i % len(queries)]
         nrows = rng.randint(0, 40)
         rows = gen.gen_rows(rng, nrows, rich=False)
         for r in rows:
